@@ -387,6 +387,13 @@ def sig_sync_opted_out(case, mis):
     return all(k.endswith("-sync-opted-out") for k in mis["kinds"]) and len(mis["kinds"]) > 0
 
 
+def sig_stale_handle(case, mis):
+    """NewBatch with a small capacity, Alloc, a plain Set/Del/Merge that outgrows the capacity (append moves
+    buf), then AllocSet/AllocDel/AllocMerge of the handle obtained before: keyStart := cap(buf) - cap(key)
+    is computed against the NEW array."""
+    return mis["kinds"] == ["spec:batchbuf-stale-handle"]
+
+
 def sig_file_switch(case, mis):
     """A round kept nothing of the old footer (every collection with persisted data was dropped),
     the store started a new data file without compacting, and the old file was never unlinked."""
@@ -410,7 +417,7 @@ def sig_ops_first_round(case, mis):
 
 SIGNATURES = {"stale-files-after-file-switch": sig_file_switch, "ops-two-failures-stale-newer-file": sig_ops_two_failures,
               "ops-first-round-unopenable": sig_ops_first_round, "first-round-unopenable": sig_first_round, "nosync-partial-writeback": sig_nosync_partial_writeback,
-              "compaction-sync-opted-out": sig_sync_opted_out, "nilmerge-iter": sig_nilmerge_iter, "zero-gauges-child-existence": sig_child_existence}
+              "compaction-sync-opted-out": sig_sync_opted_out, "batchbuf-stale-handle": sig_stale_handle, "nilmerge-iter": sig_nilmerge_iter, "zero-gauges-child-existence": sig_child_existence}
 
 
 def match_known(pid, case, mis, known):
